@@ -593,6 +593,573 @@ def _blk_cases(nrng, lengths, model_extra, with_mtx=True):
             yield ("corrmtx_o", {"x": xm, "m": ml, "method": "autocorrelation"})
 
 
+# --------------------------------------------------------------------------------------------------
+# call SEQUENCES on the same data (kinds "seq" / "seq_o").  Every kind above judges one call in isolation and only READS what
+# it gets back.  The statement holds for every call on valid inputs whatever happened before, so a case of these kinds is a
+# short history on one or two records:
+#   * calls of CORRELATION / xcorr / corrmtx (all methods; the 'autocorrelation' Gram clause is judged), each judged against
+#     the definition (max-norm and lag by lag, same tolerances as the single-call kinds: the unchanged code is stateless,
+#     its results inside a history are bit-identical to the isolated ones);
+#   * after a call the caller may modify the array(s) it was GIVEN BACK, in place (MUTS: r /= r[0], r *= 0, r[:] = nan,
+#     r -= r.mean(), r[0] = c, r *= c, r[:] = r[::-1]); later calls on the same data values (same or smaller maxlags, same and
+#     other norms, through all three functions, the same array objects or new objects / lists with equal values) must still
+#     return the definition: returned arrays must not be windows into module-level state;
+#   * the arrays returned by EARLIER calls are kept: a later call, or the caller writing into a later result, must not change
+#     them (results must not alias each other); writing into a result must not change the caller's inputs (results must not
+#     alias arguments); no call may modify its arguments;
+#   * two records alternate (independent / equal length, sum, energy, end samples but two interior samples exchanged /
+#     shorter / of the other type); the caller may modify its INPUT array in place between calls (same object, new values:
+#     POKES) - the next result must be the definition on the new values; a rejected call (maxlags >= N) may sit in between;
+#   * at the end every kept result is overwritten in place and every call of the history is made once more on the current
+#     values and judged again ("closing round").
+# When something fails, the message lists which kept results share memory with each other or with an object reachable from
+# the spectrum modules (numpy.shares_memory; not a violation by itself).
+MUTS = ["div0", "zero", "nan", "demean", "set0", "scale", "rev"]
+POKES = ["neg", "scale2", "swap", "bump", "roll"]
+MTX_METHODS = ["autocorrelation", "prewindowed", "postwindowed", "covariance", "modified"]
+# worst errors seen by the sequence judge in this process (VERIF_C09_STATS=1 prints them at exit); measured on the unchanged
+# code over quick seeds 0..4 and one thorough run: see the comment at _seq_judge
+_SEQ_STATS = {"max": 0.0, "lag": 0.0, "n": 0}
+
+
+def _clone(a):
+    """a new object holding the same values: same dtype (byte order included), same kind of stride"""
+    if isinstance(a, list):
+        return list(a)
+    a = np.asarray(a)
+    if a.ndim == 1 and a.size > 1 and a.strides[0] == 2 * a.itemsize:
+        buf = np.empty(2 * a.size, dtype=a.dtype)
+        buf[1::2] = 7.25e3
+        buf[::2] = a
+        return buf[::2]
+    if a.ndim == 1 and a.size > 1 and a.strides[0] < 0:
+        return a[::-1].copy()[::-1]
+    return a.copy()
+
+
+def _mutate(arr, how):
+    """in-place arithmetic of a caller on an array it was given back.  False if the array refuses to be written"""
+    if not isinstance(arr, np.ndarray) or arr.size == 0:
+        return False
+    try:
+        with np.errstate(all="ignore"):
+            if how == "div0":
+                d = arr.flat[0]
+                arr /= (d if (np.isfinite(d) and d != 0) else 3.0)
+            elif how == "zero":
+                arr *= 0
+            elif how == "nan":
+                arr[...] = np.nan
+            elif how == "demean":
+                arr -= arr.mean()
+            elif how == "set0":
+                arr.flat[0] = 12345.0
+            elif how == "scale":
+                arr *= 0.125
+            elif how == "rev":
+                arr[...] = arr[::-1].copy()
+            else:
+                raise RuntimeError("harness: unknown mutation %r" % (how,))
+        return True
+    except (TypeError, ValueError):
+        # integer lag vectors do not take a true division / a nan; a read-only array takes nothing
+        try:
+            arr[...] = 0
+            return True
+        except (TypeError, ValueError):
+            return False
+
+
+def _poke(rec, how):
+    """the caller edits its own input record in place (same object, new values; exact on dyadic data)"""
+    n = len(rec)
+    amax = float(np.max(np.abs(np.asarray(rec).real))) if n else 0.0
+    if how == "neg":
+        rec *= -1
+    elif how == "scale2":
+        rec *= 2
+    elif how == "swap":
+        i, j = n // 3, n - 1 - n // 3
+        if i != j and rec[i] != rec[j]:
+            rec[i], rec[j] = rec[j].copy(), rec[i].copy()
+        else:
+            rec[n // 2] += amax or 1.0
+    elif how == "bump":
+        rec[n // 2] += amax or 1.0
+    elif how == "roll":
+        rec[...] = np.roll(np.asarray(rec), 1).copy()
+    else:
+        raise RuntimeError("harness: unknown input edit %r" % (how,))
+    if n and not np.any(rec):
+        rec[0] = 1.0          # never an all-zero record (see ASSUMPTIONS)
+
+
+def _bytes(a):
+    a = np.asarray(a)
+    return (a.shape, a.dtype.str, a.tobytes())
+
+
+def _step_desc(s):
+    if s["op"] in ("poke", "reject"):
+        return "%s(%s%s)" % (s["op"], s["a"], "," + s["how"] if s["op"] == "poke" else "")
+    d = "%s(%s%s,ml=%s" % (s["op"], s["a"], "," + s["b"] if s.get("b") else "", s.get("maxlags"))
+    d += "," + str(s.get("method") if s["op"] == "mtx" else s.get("norm"))
+    if s.get("fresh"):
+        d += ",new-" + s["fresh"]
+    d += ")"
+    if s.get("mut"):
+        d += "->" + s["mut"]
+    return d
+
+
+def _seq_desc(steps, upto=None):
+    return "[" + "; ".join(_step_desc(s) for s in (steps if upto is None else steps[: upto + 1])) + "]"
+
+
+def _collect_arrays(name, v, out, depth, seen):
+    if id(v) in seen or len(out) > 4000:
+        return
+    seen.add(id(v))
+    if isinstance(v, np.ndarray):
+        out.append((name, v))
+    elif depth < 3 and isinstance(v, dict):
+        for k, w in list(v.items())[:64]:
+            _collect_arrays("%s[%r]" % (name, k), w, out, depth + 1, seen)
+    elif depth < 3 and isinstance(v, (list, tuple, set, frozenset)):
+        for k, w in enumerate(list(v)[:64]):
+            _collect_arrays("%s[%d]" % (name, k), w, out, depth + 1, seen)
+    elif depth < 3 and callable(v) and getattr(v, "__module__", None) and str(v.__module__).startswith("spectrum"):
+        for an in ("__defaults__", "__kwdefaults__", "__dict__"):
+            w = getattr(v, an, None)
+            if w:
+                _collect_arrays("%s.%s" % (name, an), tuple(w) if isinstance(w, tuple) else dict(w), out, depth + 1, seen)
+        for k, c in enumerate(getattr(v, "__closure__", None) or ()):
+            try:
+                _collect_arrays("%s.<closure %d>" % (name, k), c.cell_contents, out, depth + 1, seen)
+            except ValueError:
+                pass
+    elif depth < 2 and type(v).__module__.startswith("spectrum") and hasattr(v, "__dict__"):
+        _collect_arrays(name + ".__dict__", dict(vars(v)), out, depth + 1, seen)
+
+
+def _module_arrays():
+    """ndarrays reachable from the attributes of the imported spectrum modules (module globals, containers in them, function
+    defaults / attributes / closures, instances at module level)"""
+    import sys
+    out, seen = [], set()
+    for mn, m in sorted(sys.modules.items()):
+        if m is None or not (mn == "spectrum" or mn.startswith("spectrum.")):
+            continue
+        for an, v in list(vars(m).items()):
+            if an.startswith("__"):
+                continue
+            _collect_arrays("%s.%s" % (mn, an), v, out, 0, seen)
+    return out
+
+
+def _alias_report(kept):
+    """tripwires, computed only when something failed: kept results that share memory with each other or with module state,
+    or that are not writeable"""
+    notes = []
+    try:
+        mods = _module_arrays()
+        flat = [(j, i, a) for j, arrs, _ in kept for i, a in enumerate(arrs) if isinstance(a, np.ndarray)]
+        for n_, (j, i, a) in enumerate(flat):
+            for mn, w in mods:
+                if a is w or (np.may_share_memory(a, w) and np.shares_memory(a, w)):
+                    notes.append("result of step %d %s %s" % (j, "IS" if a is w else "shares memory with", mn))
+            for j2, i2, b in flat[n_ + 1:]:
+                if j2 != j and np.may_share_memory(a, b) and np.shares_memory(a, b):
+                    notes.append("results of steps %d and %d share memory" % (j, j2))
+            if not a.flags.writeable:
+                notes.append("result of step %d is not writeable" % j)
+    except Exception as e:                               # the report is context only
+        notes.append("alias scan failed: %r" % (e,))
+    return (" {memory: " + "; ".join(notes[:6]) + "}") if notes else ""
+
+
+def _seq_judge(s, out_arrays, a, b, tol=1e-10):
+    """s: a call step; out_arrays: what the call returned; a, b: the CURRENT values of its records (b None = auto).
+    Returns the list of differences from the definition.
+    Tolerances are those of the single-call oracles above (1e-10 max-norm; TOL_LAG per lag on that lag's own scale).  Worst
+    seen on the unchanged code over the quick seeds 0..4 + one thorough run of these kinds (VERIF_C09_STATS=1): max-norm
+    2.6e-16 (CORRELATION / Gram) and 4.5e-16 (xcorr), per lag 3.3e-13 of the lag's scale (xcorr) - margins > 300x."""
+    x = np.asarray(a)
+    y = x if b is None else np.asarray(b)
+    op, norm = s["op"], s.get("norm")
+    N = max(len(x), len(y))
+    ml = N - 1 if s.get("maxlags") is None else s["maxlags"]
+    msgs = []
+
+    def cmp(name, r, e, B, Gf):
+        r = np.asarray(r)
+        if r.shape != e.shape:
+            return ["%s has shape %s, expected %s" % (name, r.shape, e.shape)]
+        if not np.all(np.isfinite(r.astype(complex))):
+            return ["%s contains non-finite values: %s" % (name, np.asarray(r).ravel()[:4])]
+        m = []
+        d = rel(r.astype(complex), e)
+        _SEQ_STATS["max"] = max(_SEQ_STATS["max"], d)
+        _SEQ_STATS["n"] += 1
+        if d > tol:
+            m.append("%s differs from the definition: got %s expected %s" % (name, np.round(r.ravel()[:4], 6), np.round(e.ravel()[:4], 6)))
+        sc = np.maximum(np.maximum(np.abs(e.ravel()), LAGFLOOR * B.ravel()), Gf.ravel())
+        if sc.size and np.all(sc > 0):
+            _SEQ_STATS["lag"] = max(_SEQ_STATS["lag"], float(np.max(np.abs(r.astype(complex).ravel() - e.ravel()) / sc)))
+        w = _perlag(r.ravel(), e.ravel(), B.ravel(), Gf.ravel(), max(tol, TOL_LAG))
+        if w and not m:
+            m.append("%s: element %d differs from its definition relative to that lag's own scale: got %r expected %r "
+                     "(|diff| %.3e, scale %.3e)" % (name, w[0], complex(r.ravel()[w[0]]), complex(e.ravel()[w[0]]), w[1], w[2]))
+        return m
+
+    if op == "corr":
+        e = np.array([_ref(x, y, k, norm) for k in range(ml + 1)])
+        B, Gf = _lagscale(x, y, range(ml + 1), norm, 0.0)
+        msgs += cmp("CORRELATION(norm=%s, maxlags=%s, lens %d/%d)" % (norm, s.get("maxlags"), len(x), len(y)), out_arrays[0], e, B, Gf)
+    elif op == "xcorr":
+        r, l = out_arrays
+        if list(np.asarray(l)) != list(range(-ml, ml + 1)):
+            msgs.append("xcorr lags are not -maxlags..maxlags (N=%d, maxlags=%s): %s" % (N, s.get("maxlags"), np.asarray(l)[:5]))
+        e = np.array([_ref(x, y, k, norm) if k >= 0 else np.conj(_ref(y, x, -k, norm)) for k in range(-ml, ml + 1)])
+        B, Gf = _lagscale(x, y, range(-ml, ml + 1), norm, LAGFLOOR)
+        msgs += cmp("xcorr(norm=%s, maxlags=%s, N=%d)" % (norm, s.get("maxlags"), N), r, e, B, Gf)
+    elif op == "mtx":
+        C = np.asarray(out_arrays[0])
+        if C.shape != (_MTX_ROWS[s["method"]](N, ml), ml + 1):
+            msgs.append("corrmtx(%s, N=%d, m=%d) has shape %s" % (s["method"], N, ml, C.shape))
+        elif s["method"] == "autocorrelation":
+            from scipy.linalg import toeplitz
+            C = C.astype(complex if np.iscomplexobj(C) else float)
+            G = C.conj().T @ C
+            xd = x.astype(complex if np.iscomplexobj(x) else float)
+            re = np.array([_ref(xd, xd, k, "biased") for k in range(ml + 1)])
+            B, Gf = _lagscale(xd, xd, range(ml + 1), "biased", 0.0)
+            ii, jj = np.indices((ml + 1, ml + 1))
+            kk = np.abs(ii - jj)
+            msgs += cmp("Gram matrix of corrmtx(N=%d, m=%d, 'autocorrelation') vs N * Toeplitz(defined biased autocorrelation)" % (N, ml),
+                        G, N * toeplitz(re, np.conj(re)), (N * B)[kk], (N * Gf)[kk])
+    return msgs
+
+
+def _seq_call(sp, s, a, b):
+    """perform the call of step s on the records a, b (b None = autocorrelation).  Returns (arrays returned, passed a, passed b)"""
+    fr = s.get("fresh")
+    if fr == "copy":
+        a = _clone(a)
+        b = None if b is None else _clone(b)
+    elif fr == "list":
+        a = np.asarray(a).tolist()
+        b = None if b is None else np.asarray(b).tolist()
+    if s["op"] == "corr":
+        out = [sp.CORRELATION(a, b, maxlags=s["maxlags"], norm=s["norm"])]
+    elif s["op"] == "xcorr":
+        out = list(sp.xcorr(a, b, maxlags=s["maxlags"], norm=s["norm"]))
+    elif s["op"] == "mtx":
+        m = s["maxlags"]
+        out = [sp.corrmtx(a, len(a) - 1 if m is None else m, s["method"])]
+    else:
+        raise RuntimeError("harness: unknown step %r" % (s,))
+    return out, a, b
+
+
+def _seq_skip(s, a):
+    """norm='coeff' on a record without energy is outside the statement (see ASSUMPTIONS)"""
+    return s.get("norm") == "coeff" and not np.any(np.asarray(a))
+
+
+def _run_seq(p, judge):
+    """runs the history p["steps"] on private copies of the records.  Returns (messages, arrays returned by the last call)"""
+    sp = _sp()
+    steps = p["steps"]
+    recs = {k: _clone(p[k]) for k in ("x", "y") if p.get(k) is not None}
+    msgs = []
+    kept = []          # (step index, arrays as returned [the caller's own objects], their expected bytes)
+    first = {}         # (call signature, record bytes) -> bytes-free copy of the first result, for the history-independence check
+    last = None
+    where = "call sequence on the same data: "
+
+    def check_kept(j, when):
+        for j0, arrs, snaps in kept:
+            if j0 == j:
+                continue
+            for arr, snap in zip(arrs, snaps):
+                if isinstance(arr, np.ndarray) and _bytes(arr) != snap:
+                    msgs.append(where + "the array returned by an earlier call (step %d) changed %s (step %d) in %s%s" % (
+                        j0, when, j, _seq_desc(steps, j), _alias_report(kept)))
+                    return
+
+    for j, s in enumerate(steps):
+        a = recs[s["a"]]
+        b = recs[s["b"]] if s.get("b") else None
+        if s["op"] == "poke":
+            _poke(a, s["how"])
+            if judge:
+                check_kept(j, "when the caller edited its input record")
+            continue
+        if s["op"] == "reject":
+            try:
+                sp.CORRELATION(a, maxlags=len(a) + s.get("over", 0), norm=s.get("norm", "biased"))
+            except Exception:
+                pass
+            continue
+        if _seq_skip(s, a):
+            continue
+        before = {k: _bytes(v) for k, v in recs.items()}
+        out, pa, pb = _seq_call(sp, s, a, b)
+        out = [o for o in out]
+        last = out
+        if not judge:
+            for o in out:
+                if s.get("mut"):
+                    _mutate(o, s["mut"])
+            continue
+        pbytes = [None if q is None or isinstance(q, list) else _bytes(q) for q in (pa, pb)]
+        for k, v in recs.items():
+            if _bytes(v) != before[k]:
+                msgs.append(where + "step %d of %s modified the caller's record %s" % (j, _seq_desc(steps, j), k))
+        for m in _seq_judge(s, out, a, b):
+            msgs.append(where + "step %d of %s: %s%s" % (j, _seq_desc(steps, j), m, _alias_report(kept + [(j, out, None)])))
+        # the same call on the same values earlier in the history: same numbers (covers the data-matrix methods that have no
+        # Gram clause).  The unchanged code is deterministic: the difference is exactly 0; 1e-12 relative allowed
+        sig = (s["op"], s["a"], s.get("b"), s.get("maxlags"), str(s.get("norm")), s.get("method"), _bytes(a), None if b is None else _bytes(b))
+        if sig in first:
+            for o, f in zip(out, first[sig]):
+                if rel(np.asarray(o).astype(complex), f) > 1e-12:
+                    msgs.append(where + "step %d of %s returns other numbers than the same call on the same values earlier in the "
+                                "history: %s vs %s%s" % (j, _seq_desc(steps, j), np.round(np.asarray(o).ravel()[:4], 6), np.round(f.ravel()[:4], 6),
+                                                         _alias_report(kept + [(j, out, None)])))
+                    break
+        else:
+            first[sig] = [np.array(o, copy=True).astype(complex) for o in out]
+        kept.append((j, out, [_bytes(o) for o in out]))
+        check_kept(j, "when a later call ran")
+        if s.get("mut"):
+            for o in out:
+                _mutate(o, s["mut"])
+            kept[-1] = (j, out, [_bytes(o) for o in out])
+            check_kept(j, "when the caller wrote into the result of a later call")
+            for k, v in recs.items():
+                if _bytes(v) != before[k]:
+                    msgs.append(where + "writing into the result of step %d of %s changed the caller's record %s (the result aliases "
+                                "the input)" % (j, _seq_desc(steps, j), k))
+            for q, qb, nm_ in ((pa, pbytes[0], "first"), (pb, pbytes[1], "second")):
+                if qb is not None and q is not a and q is not b and _bytes(q) != qb:
+                    msgs.append(where + "writing into the result of step %d of %s changed the %s argument of that call" % (
+                        j, _seq_desc(steps, j), nm_))
+    if judge:
+        # closing round: the caller overwrites everything it was ever given, then every call of the history once more on the
+        # current values of the records
+        how = p.get("close", "nan")
+        for j0, arrs, _ in kept:
+            for o in arrs:
+                _mutate(o, how)
+        before = {k: _bytes(v) for k, v in recs.items()}
+        for j, s in enumerate(steps):
+            if s["op"] in ("poke", "reject"):
+                continue
+            a = recs[s["a"]]
+            b = recs[s["b"]] if s.get("b") else None
+            if _seq_skip(s, a):
+                continue
+            out, _, _ = _seq_call(sp, s, a, b)
+            for m in _seq_judge(s, out, a, b):
+                msgs.append(where + "after the caller overwrote (%s) every array it had been given by %s, step %d made again: %s%s" % (
+                    how, _seq_desc(steps), j, m, _alias_report(kept)))
+        for k, v in recs.items():
+            if _bytes(v) != before[k]:
+                msgs.append(where + "the closing round of %s modified the caller's record %s" % (_seq_desc(steps), k))
+    return msgs, last
+
+
+def oracle_seq(p):
+    msgs, _ = _run_seq(p, True)
+    # one message per class is enough for the report
+    seen, out = set(), []
+    for m in msgs:
+        c = m[:60]
+        if c not in seen:
+            seen.add(c)
+            out.append(m)
+    return out
+
+
+def impl_seq(p):
+    _, last = _run_seq(p, False)
+    return [np.asarray(last[0])]
+
+
+def model_seq(p):
+    """the last call of a "seq" history is a CORRELATION call: the exact model on the values the records have at that point"""
+    recs = {k: _clone(p[k]) for k in ("x", "y") if p.get(k) is not None}
+    for s in p["steps"]:
+        if s["op"] == "poke":
+            _poke(recs[s["a"]], s["how"])
+    s = p["steps"][-1]
+    if s["op"] != "corr":
+        raise RuntimeError("harness: a 'seq' history must end with a CORRELATION call")
+    x = np.asarray(recs[s["a"]])
+    y = np.asarray(recs[s["b"]]) if s.get("b") else x
+    N = max(len(x), len(y))
+    ml = N - 1 if s["maxlags"] is None else s["maxlags"]
+    return ("Q", proto.request("corr", "Q", [ml, _nm(s["norm"])], [x, y]))
+
+
+def _seq_key(p):
+    import json
+    x = np.asarray(p["x"])
+    y = np.asarray(p["y"]) if p.get("y") is not None else np.zeros(0)
+    return "seq|%d|%d|%s|%d|%d|%s|%s" % (len(x), len(y), x.dtype.str, hash(x.tobytes()) & 0xFFFFFF, hash(y.tobytes()) & 0xFFFFFF,
+                                         p.get("close"), json.dumps(p["steps"], sort_keys=True))
+
+
+def _seq_tags(p):
+    x = np.asarray(p["x"])
+    st = p["steps"]
+    calls = [s for s in st if s["op"] in ("corr", "xcorr", "mtx")]
+    t = ["seq", "seq:complex" if np.iscomplexobj(x) else "seq:real", "seq:y=" + p.get("ymode", "-"),
+         "seq:calls=%d" % len(calls), "seq:first=%s/%s->%s" % (calls[0]["op"], calls[0].get("norm") if calls[0]["op"] != "mtx" else calls[0]["method"],
+                                                               calls[0].get("mut"))]
+    t += sorted({"seq:mut:" + s["mut"] for s in calls if s.get("mut")})
+    t += sorted({"seq:op:" + s["op"] for s in calls})
+    t += sorted({"seq:norm:%s" % s.get("norm") for s in calls if s["op"] != "mtx"})
+    t += sorted({"seq:new-" + s["fresh"] for s in calls if s.get("fresh")})
+    t += sorted({"seq:" + s["op"] for s in st if s["op"] in ("poke", "reject")})
+    if len({(s["a"], s.get("b")) for s in calls}) > 1:
+        t.append("seq:alternating-records")
+    # a result written into, then the same records asked again with the same or fewer lags (the window into a memo)
+    for i in range(len(st) - 1):
+        s, n = st[i], st[i + 1]
+        if s.get("mut") and n["op"] in ("corr", "xcorr", "mtx") and (n["a"], n.get("b")) == (s["a"], s.get("b")):
+            t.append("seq:write-then-same-data")
+            break
+    if len(x) > 40:
+        t.append("seq:long")
+    t += ["seq:" + v for v in _blk_tags(len(x))[:1]]
+    return t
+
+
+KINDS["seq"] = {"impl": impl_seq, "model": model_seq, "oracle": oracle_seq, "rtol": 1e-12, "atol": 1e-300,
+                "key": _seq_key, "tags": _seq_tags, "nontrivial": _NT}
+# histories on records beyond the exact model's reach, or not ending with a CORRELATION call: definition only
+KINDS["seq_o"] = {"oracle": oracle_seq, "key": _seq_key, "tags": _seq_tags, "nontrivial": _NT}
+
+if __import__("os").environ.get("VERIF_C09_STATS"):
+    import atexit
+    atexit.register(lambda: print("C09 seq judge: %d comparisons, worst max-norm %.3e, worst per-lag ratio %.3e" % (
+        _SEQ_STATS["n"], _SEQ_STATS["max"], _SEQ_STATS["lag"])))
+
+
+def _seq_one(nrng, i, N, core, use_model=True):
+    """one history.  i indexes the first call's norm (i mod 4) and what the caller does to its result (i mod 7), the first
+    pair of records ((i div 4) mod 4) and the relation of the two records ((i div 2) mod 4) independently.  core: the first
+    follower asks the same records again with the same or fewer lags, before anything else happens."""
+    cplx = bool(nrng.integers(0, 2))
+    x = _data(nrng, N, cplx, int(nrng.integers(0, 5)))
+    ymode = ["indep", "pert", "short", "mixed"][(i // 2) % 4]
+    if ymode == "short" and N < 2:
+        ymode = "indep"
+    if ymode == "pert":
+        # equal length, dtype, sum, energy and end samples: two interior samples exchanged (a memo keyed by summary values)
+        y = x.copy()
+        j1, j2 = (1, N - 2) if N >= 4 else (0, N - 1)
+        if y[j1] == y[j2]:
+            y[j1] = y[j1] + 1
+        else:
+            y[j1], y[j2] = x[j2], x[j1]
+    elif ymode == "short":
+        y = _data(nrng, int(nrng.integers(1, N)), cplx, int(nrng.integers(0, 5)))
+    elif ymode == "mixed":
+        y = _data(nrng, N, not cplx, int(nrng.integers(0, 5)))
+    else:
+        y = _data(nrng, N, cplx, int(nrng.integers(0, 5)))
+    lens = {"x": len(x), "y": len(y)}
+    pairs = [("x", None), ("x", "y"), ("y", None), ("y", "x")]
+
+    def ncall(pr):
+        return max(lens[pr[0]], lens[pr[1]] if pr[1] else 0)
+
+    def call(pr, op, norm, ml, mut=None, fresh=None, method=None):
+        s = {"op": op, "a": pr[0], "maxlags": ml}
+        if pr[1]:
+            s["b"] = pr[1]
+        if op == "mtx":
+            s["method"] = method or "autocorrelation"
+        else:
+            s["norm"] = norm if (norm != "coeff" or not pr[1]) else "biased"
+        if mut:
+            s["mut"] = mut
+        if fresh:
+            s["fresh"] = fresh
+        return s
+
+    def ops_for(pr):
+        if not pr[1]:
+            return ["corr", "corr", "xcorr", "mtx"]
+        return ["corr", "corr", "xcorr"] if lens[pr[0]] == lens[pr[1]] else ["corr"]
+
+    def rnd_ml(pr, cap=None):
+        n = ncall(pr)
+        hi = n - 1 if cap is None else min(cap, n - 1)
+        return int(nrng.integers(0, hi + 1))
+
+    p0 = pairs[(i // 4) % 4]
+    n0 = ncall(p0)
+    ml0 = [n0 - 1, None, max(0, n0 - 2), rnd_ml(p0)][int(nrng.integers(0, 4))]
+    if n0 > 64:
+        ml0 = int(nrng.integers(8, 25))
+    cap0 = n0 - 1 if ml0 is None else ml0
+    o0 = ops_for(p0)
+    op0 = "corr" if core else o0[int(nrng.integers(0, len(o0)))]
+    steps = [call(p0, op0, NORMS[i % 4], ml0, mut=MUTS[i % 7], method=MTX_METHODS[int(nrng.integers(0, 5))] if not core else None)]
+    nf = int(nrng.integers(2, 5))
+    for f in range(nf):
+        same = (core and f == 0) or nrng.random() < 0.6
+        pr = p0 if same else pairs[int(nrng.integers(0, 4))]
+        if not (core and f == 0):
+            u = nrng.random()
+            if u < 0.15:
+                steps.append({"op": "poke", "a": pr[0], "how": POKES[int(nrng.integers(0, len(POKES)))]})
+            elif u < 0.25:
+                steps.append({"op": "reject", "a": pr[0], "over": int(nrng.integers(0, 3)), "norm": NORMS[int(nrng.integers(0, 4))]})
+        o = ops_for(pr)
+        op = o[int(nrng.integers(0, len(o)))]
+        if ncall(pr) > 64 and pr != p0:
+            cap = 24
+        else:
+            cap = cap0 if (pr == p0 and nrng.random() < 0.75) else (24 if ncall(pr) > 64 else None)
+        ml = rnd_ml(pr, cap)
+        if pr == p0 and nrng.random() < 0.3:
+            ml = ml0 if ncall(pr) <= 64 or ml0 is not None else ml
+        fresh = [None, None, "copy", "list"][int(nrng.integers(0, 4))]
+        mut = MUTS[int(nrng.integers(0, len(MUTS)))] if nrng.random() < 0.5 else None
+        steps.append(call(pr, op, NORMS[int(nrng.integers(0, 4))], ml, mut=mut, fresh=fresh,
+                          method=MTX_METHODS[int(nrng.integers(0, 5))] if nrng.random() < 0.5 else None))
+    # last: CORRELATION on the first records again, the same or fewer lags, no energy normalisation (exact model comparison)
+    steps.append(call(p0, "corr", ["biased", "unbiased", None][(i // 7) % 3], rnd_ml(p0, cap0) if nrng.random() < 0.7 else ml0))
+    for s in steps:
+        # a data matrix of order m needs m <= N - 1 of ITS record; 'None' means all lags
+        if s["op"] == "mtx" and s["maxlags"] is None:
+            s["maxlags"] = lens[s["a"]] - 1
+    q = {"x": x, "y": y, "steps": steps, "ymode": ymode, "close": MUTS[(i // 3) % 7]}
+    return ("seq" if use_model else "seq_o", q)
+
+
+def _seq_cases(nrng, tier):
+    thorough = tier == "thorough"
+    maxN = 16 if not thorough else 40
+    n = 140 if not thorough else 700
+    for i in range(n):
+        core = i < 56 if not thorough else i % 2 == 0
+        N = int(nrng.integers(2, maxN + 1)) if i % 10 else 1
+        yield _seq_one(nrng, i, N, core)
+    # long records (a memo may be size-gated): a few lengths, among them block-size boundaries (definition only there)
+    longs = [64, 129, 300, 1024, 2051] if not thorough else [64, 129, 256, 257, 300, 513, 600, 1000, 1024, 1027, 2048, 2051, 4099]
+    o = int(nrng.integers(0, 28))
+    for j, N in enumerate(longs):
+        for c in range(2):
+            yield _seq_one(nrng, o + 2 * j + c + (3 if c else 0), N, c == 0, use_model=N <= 600)
+
+
 def gen(rng, nrng, tier):
     for kind, p in _gen(rng, nrng, tier):
         y = p.get("y") if isinstance(p, dict) else None
@@ -843,3 +1410,5 @@ def _gen(rng, nrng, tier):
     yield from _blk_cases(nrng, lengths, extra)
     if thorough:
         yield from _blk_cases(nrng, [65536 + BLK_R[(rot + 3 * j) % 6] for j in range(2)], set(), with_mtx=False)
+    # call sequences on the same data, the caller writing into what it was given (see MUTS above)
+    yield from _seq_cases(nrng, tier)
